@@ -25,7 +25,11 @@ theorem invA_kstep (sh : Sh) (ppc : PPc) (kpc : Nat → KPc) (epc : Tid → EPc)
     cases e <;> simp only [kstep, kfin, takeSlot] at hts <;>
       (repeat' split at hts) <;> simp only [Option.some.injEq, Prod.mk.injEq] at hts <;> obtain ⟨rfl, rfl⟩ := hts <;>
       constructor <;> simp only [] <;> grind
-  | k3 a | kf0 a | kf3 a =>
+  | k3 a | kf0 a | kf3 a | kd1c a | kd3c a =>
+    simp only [kstep] at hts
+    simp only [Option.some.injEq, Prod.mk.injEq] at hts; obtain ⟨rfl, rfl⟩ := hts
+    constructor <;> simp only [] <;> grind
+  | kd0 a | kd3 a =>
     simp only [kstep] at hts
     simp only [Option.some.injEq, Prod.mk.injEq] at hts; obtain ⟨rfl, rfl⟩ := hts
     constructor <;> simp only [] <;> grind
